@@ -25,6 +25,10 @@ CHECKS = {
    text="Seeded simulation of complete connections: real gmtls client and server (stdlib crypto/tls as third implementation on the TLS path) as tasks over a simulated network whose segmentation, latency, short reads, finite windows, read-deadline expiries and task schedule are all choices; every configuration axis of the property is redrawn per run. Outcome is compared with a small policy model where the documentation is unambiguous; both ends must agree on version, suite, certificates, exported keying material and byte streams.",
    note="Trusts the policy model (Appendix A; ambiguous combinations are 'unspecified'), the fixture PKI, the reference primitives (validated against OpenSSL 3.5.6) and go1.23.5's crypto/tls as independent TLS 1.0-1.2 implementation.",
    technique="deterministic simulation: whole client/server system in one process over a simulated network and virtual clock with a seeded scheduler; benign network nondeterminism injected; policy-model, agreement and stream-equality oracles; ddmin-minimised replay files"),
+ "C07": dict(level="fault_enumeration", design="5 (C07)",
+   text="An in-path attacker is a node of the simulation between two real gmtls endpoints. Enumerated family: for seed-chosen small GMSSL sessions, one simulated run per fault position - every bit of every protected record of both directions, every truncation length, extensions, drop, duplicate, adjacent swap - so the fault-position space of a session is swept completely (sessions are sampled by seed; evidence lists per session expected vs executed positions). Sampled family: 15 fault kinds (incl. replay, cross-direction and cross-connection injection, header rewrites, FIN before/inside records) on sessions with payloads up to 16 KiB, both GM suites and TLS suites. Oracle: prefix after every Read, exactly the plaintext of the records before the first affected one (independent decoder), sticky non-EOF error, fatal alert on the wire, IV/nonce/sequence audit.",
+   note="Trusts reftls' record layer (written from the standards, cross-validated on every benign C06 session) for the expected per-record plaintext; TLS-suite sessions use the prefix+detection oracle only. CBC padding-length sweep with a reference sender is part of the scripted-peer stage.",
+   technique="deterministic simulation with fault injection: attacker task on a simulated network flips/truncates/drops/duplicates/reorders/replays/injects protected records at seeded or enumerated positions; history oracle from an independent decoder; ddmin-minimised replay files"),
  "C19": dict(level="exploration", design="5 (C19)",
    text="Seeded simulation of the sources and sinks around the streaming PKCS#7 helpers: every Read/Write size and behaviour (short non-EOF read, 1-byte, (0,nil), data+EOF) is a choice; a separate fault family injects one source or sink error at a drawn offset. Oracle: reference padding model (exact equality fault-free; error surfaced and emitted bytes a prefix under an injected error).",
    note="Trusts the 6-line refpad model and stdlib AES/DES-CBC (used as the block mode so SM4 changes cannot raise C19 alarms).",
